@@ -132,6 +132,7 @@ class Kinds(object):
 
     def __init__(self, be):
         self.be = be
+        self.n3pool = None
         P, St, C = be.paulialg, be.stabilizer, be.circuit
         self.P, self.St, self.C = P, St, C
         be_ = be
@@ -344,6 +345,8 @@ class C17(Prop):
         pf2 = "%s/maps_n2.txt" % self.wd
         self.model("MC_Clifford", "MC_Clifford_maps_n2.cfg", name="maps_n2", print_file=pf2, expect_distinct=11520)
         self.pool = [m for m, _ in read_maps(pf2)]
+        r3 = self.model("MC_RotSim", "MC_RotSim_n3.cfg", name="rotsim_n3", workers=1, simulate="num=8", depth=9, seed=self.seed + 130, collect=True)
+        self.pool3 = [e[3] for e in r3.printed if e[0] == "S" and e[1] % 3 == 0]
         self.hists = []
         with open(pf) as f:
             for line in f:
@@ -355,6 +358,9 @@ class C17(Prop):
         thorough = self.tier == "thorough"
         kinds = ["Pauli", "PauliList", "PauliMonomial", "PauliPolynomial", "CliffordMap", "StabilizerState", "CliffordGate",
                  "CliffordLayer", "CliffordCircuit", "Circuit", "MeasuringCircuit"]
+        # three-qubit states (all ranks) for the query methods whose kernels have N>=3-only paths (entropy, expect, sample ...)
+        for v in range(60 if thorough else 24):
+            yield {"k": "methods3", "v": v}
         nv = 120 if thorough else 30
         for kind in kinds:
             for v in range(3 + (nv if kind in ("Pauli", "PauliList", "PauliPolynomial", "CliffordMap", "StabilizerState") else 0)):
@@ -372,11 +378,15 @@ class C17(Prop):
             K = Kinds(be)
             K.pool = self.pool
             setattr(self, "_k_" + be.name, K)
+        if scn["k"] == "methods3":
+            return self._methods3(scn, be, K)
         kind = scn["kind"]
         if kind not in K.methods and kind != "MeasuringCircuit":
             return []
         if kind == "MeasuringCircuit" and be.name != "py":
             return []
+        if scn["k"] == "methods3":
+            return self._methods3(scn, be, K)
         if scn["k"] == "methods":
             out = []
             for ent in K.methods[kind]:
@@ -484,6 +494,45 @@ class C17(Prop):
         return [rec]
 
 
+def _methods3(self, scn, be, K):
+    """query methods of a 3-qubit StabilizerState (every rank), whole-object snapshots before / after"""
+    import numpy as _np
+    v = scn["v"]
+    m = self.pool3[v % len(self.pool3)]
+    m2 = self.pool3[(v * 7 + 3) % len(self.pool3)]
+    r = v % 4
+    St = be.stabilizer
+    calls = [("entropy_list", lambda o, a: o.entropy([0, 2])), ("entropy_one", lambda o, a: o.entropy([1])),
+             ("entropy_mask", lambda o, a: o.entropy(_np.array([True, True, False]))), ("entropy_tuple", lambda o, a: o.entropy((2,))),
+             ("expect_list", lambda o, a: o.expect(be.plist([m2[0], m2[3], m[1]]))), ("expect_poly", lambda o, a: o.expect(be.poly([m2[0], m[1]], [0.5, 1j]))),
+             ("sample", lambda o, a: o.sample(4)), ("density_matrix", lambda o, a: o.density_matrix), ("to_map", lambda o, a: o.to_map()),
+             ("copy", lambda o, a: o.copy()), ("repr", lambda o, a: repr(o)), ("stabilizers", lambda o, a: o.stabilizers), ("tokenize", lambda o, a: o.tokenize()),
+             ("to_qutip", lambda o, a: o.to_qutip())]
+    if r == 0:
+        calls += [("expect_state", lambda o, a: o.expect(a)), ("get_prob", lambda o, a: o.get_prob(be.ivec([0, 1, 1])))]
+    if be.name == "py" and r == 0:
+        calls.append(("diagonalize", lambda o, a: be.circuit.diagonalize(o)))
+    out = []
+    for name, fn in calls:
+        rec = {"op": "call", "kind": "StabilizerState@3", "meth": name, "cls": "query", "recv": "o"}
+        try:
+            o = be.state(ins_to_state(m), r)
+            a = be.state(ins_to_state(m2), (v // 4) % 4)
+            heap = {"o": o, "a": a}
+            before = {k2: val(v2) for k2, v2 in heap.items()}
+            be.seed(v)
+            try:
+                fn(o, a)
+            except NotImplementedError:
+                rec["refused"] = "NotImplementedError"
+            after = {k2: val(v2) for k2, v2 in heap.items()}
+            rec["before"], rec["after"] = freeze(before), freeze(after)
+        except Exception as e:
+            rec["exc"] = _exc(e)
+        out.append(rec)
+    return out
+
+
 def fz(v):
     """values are compared as canonical strings (TLC refuses to compare values of different shapes)"""
     import json
@@ -511,4 +560,5 @@ def mask_unset(b, a):
     return a
 
 
+C17._methods3 = _methods3
 PROP = C17
